@@ -14,7 +14,7 @@ import os
 import re
 
 from ..core import env, gcc, par, shrink
-from ..core.result import Failure, Report
+from ..core.result import Failure, Report, robust
 from ..ref import cond
 
 ID = "C01"
@@ -161,7 +161,7 @@ def _e1(arg):
     out = []
     seen = set()
     for program, ci in fails:
-        f = mk_failure(program, ci, ext)
+        f = robust(mk_failure, {"lines": lines_of(program, ext), "config": CONFIGS[ci][0], "defines": CONFIGS[ci][1]}, program, ci, ext)
         if f and f.key() not in seen:
             seen.add(f.key())
             out.append(f)
@@ -345,7 +345,7 @@ def _chunks(xs, n):
 
 
 def _mk(arg):
-    return mk_failure(arg[0], arg[1])
+    return robust(mk_failure, {"lines": lines_of(arg[0]), "config": CONFIGS[arg[1]][0]}, arg[0], arg[1])
 
 
 def run(tier, ext=".c", pid=ID):
